@@ -20,8 +20,9 @@ func (x *Exec) doCall(fr *Frame, st *State, c *ssa.CallCommon, args []Value, pos
 	if c.Signature().Results().Len() == 1 {
 		rt = c.Signature().Results().At(0).Type()
 	}
-	if b, ok := c.Value.(*ssa.Builtin); ok {
-		return x.builtin(fr, st, b, c, args, rt, pos)
+	bi, isBuiltin := c.Value.(*ssa.Builtin)
+	if isBuiltin && (fr.parent != nil || x.root == nil || x.root.spec == nil || len(x.root.spec.Sites) == 0) {
+		return x.builtin(fr, st, bi, c, args, rt, pos)
 	}
 	key, full := calleeKey(c)
 	keys := []string{key, full}
@@ -30,88 +31,9 @@ func (x *Exec) doCall(fr *Frame, st *State, c *ssa.CallCommon, args []Value, pos
 	for root.parent != nil {
 		root = root.parent
 	}
-	// ---- site clauses of the function under proof ----
-	type matched struct {
-		site *SiteSpec
-		env  map[string]Value
-	}
-	var ms []matched
-	if root.spec != nil {
-		for _, s := range root.spec.Sites {
-			if !calleeMatches(s.Pattern, key, full) {
-				continue
-			}
-			env := map[string]Value{}
-			okArgs := true
-			for i, pat := range s.Args {
-				if pat == "_" {
-					continue
-				}
-				if strings.HasSuffix(pat, "...") {
-					if i < len(args) {
-						env[strings.TrimSuffix(pat, "...")] = args[len(args)-1]
-					}
-					break
-				}
-				if i >= len(args) {
-					okArgs = false
-					break
-				}
-				env[pat] = args[i]
-			}
-			if !okArgs {
-				continue
-			}
-			s.matched++
-			ms = append(ms, matched{s, env})
-			var watches []watch
-			for _, w := range s.Witness {
-				wenv := x.newEnv(root, st)
-				wenv.pos = pos
-				wenv.cur = fr
-				for k, v := range env {
-					wenv.vars[k] = v
-				}
-				n := w.Bound
-				if w.Var == "" {
-					n = 1
-				}
-				for k := 0; k < n; k++ {
-					name := w.Name
-					if w.Var != "" {
-						wenv.vars[w.Var] = intV(IntLit(int64(k)))
-						name = fmt.Sprintf("%s[%d]", w.Name, k)
-					}
-					if v, err := wenv.eval(w.E); err == nil {
-						if ls := flatten(v); len(ls) > 0 {
-							watches = append(watches, watch{Name: name, Term: ls[0]})
-						}
-					}
-				}
-			}
-			for _, a := range s.Asserts {
-				x.obligeClause(root, st, a, "site", s.Label, func(e *Env) {
-					for k, v := range env {
-						e.vars[k] = v
-					}
-					e.siteWhere = s.Where
-					e.cur = fr
-				}, pos)
-				x.obls[len(x.obls)-1].Watch = watches
-			}
-			var cprops []string
-			for _, a := range s.Asserts {
-				for _, p := range a.Props {
-					if !hasProp(cprops, p) {
-						cprops = append(cprops, p)
-					}
-				}
-			}
-			x.obligeCover(root, st, "site:"+s.Label, pos)
-			if len(x.obls) > 0 && x.obls[len(x.obls)-1].Cover && len(cprops) > 0 {
-				x.obls[len(x.obls)-1].Props = cprops
-			}
-		}
+	ms := x.matchSites(root, fr, st, key, full, args, pos)
+	if isBuiltin {
+		return x.builtin(fr, st, bi, c, args, rt, pos)
 	}
 	// ---- effect of the call ----
 	callee := c.StaticCallee()
@@ -183,6 +105,103 @@ done:
 			}
 		}
 	}
+	x.applySiteUpdates(root, fr, st, ms, res, preSnap, pos)
+	return res
+}
+
+// matched is a site clause of the contract that applies to the call (or pseudo-call) at hand.
+type matched struct {
+	site *SiteSpec
+	env  map[string]Value
+}
+
+// matchSites finds the site clauses for a call of key/full, emits their assertion and cover
+// obligations in the pre-state, and returns them for the post-call ghost updates.
+func (x *Exec) matchSites(root, fr *Frame, st *State, key, full string, args []Value, pos token.Pos) []matched {
+	var ms []matched
+	if root.spec != nil {
+		for _, s := range root.spec.Sites {
+			if !calleeMatches(s.Pattern, key, full) {
+				continue
+			}
+			env := map[string]Value{}
+			okArgs := true
+			for i, pat := range s.Args {
+				if pat == "_" {
+					continue
+				}
+				if strings.HasSuffix(pat, "...") {
+					if i < len(args) {
+						env[strings.TrimSuffix(pat, "...")] = args[len(args)-1]
+					}
+					break
+				}
+				if i >= len(args) {
+					okArgs = false
+					break
+				}
+				env[pat] = args[i]
+			}
+			if !okArgs {
+				continue
+			}
+			s.matched++
+			ms = append(ms, matched{s, env})
+			var watches []watch
+			for _, w := range s.Witness {
+				wenv := x.newEnv(root, st)
+				wenv.pos = pos
+				wenv.cur = fr
+				for k, v := range env {
+					wenv.vars[k] = v
+				}
+				n := w.Bound
+				if w.Var == "" {
+					n = 1
+				}
+				for k := 0; k < n; k++ {
+					name := w.Name
+					if w.Var != "" {
+						wenv.vars[w.Var] = intV(IntLit(int64(k)))
+						name = fmt.Sprintf("%s[%d]", w.Name, k)
+					}
+					if v, err := wenv.eval(w.E); err == nil {
+						if ls := flatten(v); len(ls) > 0 {
+							watches = append(watches, watch{Name: name, Term: ls[0]})
+						}
+					}
+				}
+			}
+			for _, a := range s.Asserts {
+				x.obligeClause(root, st, a, "site", s.Label, func(e *Env) {
+					for k, v := range env {
+						e.vars[k] = v
+					}
+					e.siteWhere = s.Where
+					e.siteOptional = !s.Must
+					e.cur = fr
+				}, pos)
+				x.obls[len(x.obls)-1].Watch = watches
+			}
+			var cprops []string
+			for _, a := range s.Asserts {
+				for _, p := range a.Props {
+					if !hasProp(cprops, p) {
+						cprops = append(cprops, p)
+					}
+				}
+			}
+			x.obligeCover(root, st, "site:"+s.Label, pos)
+			if len(x.obls) > 0 && x.obls[len(x.obls)-1].Cover && len(cprops) > 0 {
+				x.obls[len(x.obls)-1].Props = cprops
+			}
+		}
+	}
+	return ms
+}
+
+// applySiteUpdates runs the bind/update clauses of the matched sites in the post-state.
+func (x *Exec) applySiteUpdates(root, fr *Frame, st *State, ms []matched, res Value, preSnap *State, pos token.Pos) {
 	for _, mt := range ms {
 		for _, u := range append(append([]GhostUpdate(nil), mt.site.Binds...), mt.site.Updates...) {
 			env := x.newEnv(root, st)
@@ -210,14 +229,14 @@ done:
 			}
 			if mt.site.Where != nil {
 				w, err := env.evalBool(mt.site.Where)
-				if err == nil {
-					v = x.iteGhost(w, v, old)
+				if err != nil {
+					continue // the site does not apply here
 				}
+				v = x.iteGhost(w, v, old)
 			}
 			st.ghost[u.Name] = v
 		}
 	}
-	return res
 }
 
 func bindResults(env *Env, res Value) {
